@@ -14,38 +14,28 @@ ERROR awkward_ListOffsetArray_reduce_nonlocal_outstartsstops_64(
   // no output lists (a zero-length array): nothing to distribute, and nothing to divide by
   int64_t maxcount = (outlength == 0 ? 0 : lendistincts / outlength);
 
-  int64_t j = 0;
-  int64_t k = 0;
-  int64_t maxdistinct = -1;
-  int64_t lasti = -1;
-  for (int64_t i = 0;  i < lendistincts;  i++) {
-    if (maxdistinct < distincts[i]) {
-      maxdistinct = distincts[i];
-
-      int64_t extra = (i - lasti)/maxcount;
-      lasti = i;
-
-      int64_t numgappy = gaps[j];
-      if (numgappy < extra) {
-        numgappy = extra;
+  // Output list k owns the block distincts[k*maxcount : (k + 1)*maxcount] (nextparents
+  // are parent*maxcount + position); it extends to the last position of the block that
+  // is in use. A parent without any item, listed in 'parents' or not, is an empty list;
+  // it is put where the previous list ended so that it never points beyond the content.
+  int64_t laststop = 0;
+  for (int64_t k = 0;  k < outlength;  k++) {
+    int64_t start = k*maxcount;
+    int64_t stop = start;
+    for (int64_t i = start;  i < start + maxcount;  i++) {
+      if (distincts[i] != -1) {
+        stop = i + 1;
       }
-
-      for (int64_t gappy = 0;  gappy < numgappy;  gappy++) {
-        outstarts[k] = i;
-        outstops[k] = i;
-        k++;
-      }
-      j++;
     }
-
-    if (distincts[i] != -1) {
-      outstops[k - 1] = i + 1;
+    if (stop == start) {
+      start = laststop;
+      stop = laststop;
     }
-  }
-
-  for (;  k < outlength;  k++) {
-    outstarts[k] = lendistincts + 1;
-    outstops[k] = lendistincts + 1;
+    else {
+      laststop = stop;
+    }
+    outstarts[k] = start;
+    outstops[k] = stop;
   }
 
   return success();
